@@ -10,7 +10,8 @@ from . import c01
 LEVEL = "model_checking"
 RULE = ("GetMetric records: random registries (<= 5 non-uniform integer metric variables over subsets of 1-3 axes and "
         "positions, any list order) x array position x requested axes in any order, the answer must be one of the "
-        "metrics the rule allows (TLC enumerates them); Integrate/Average/Derivative/Weighted records: real operator "
+        "metrics the rule allows (TLC enumerates them), also after earlier lookups for arrays at other positions on "
+        "the same Grid; Integrate/Average/Derivative/Weighted records: real operator "
         "calls with non-uniform metrics incl. NaN masks and distractor variables at other positions; non-trivial = "
         "distinct (event, registry shape, array position, axes) classes")
 
@@ -84,6 +85,25 @@ def partition_registry(rng, grid, adims):
     return uniq
 
 
+def subset_registry(rng, grid, adims):
+    """three axes: any subset of the six proper axis sets (singles and pairs), so that partitions overlap, are
+    only partly registered, or do not exist at all"""
+    axn = [a["name"] for a in grid["axes"]]
+    axd = {a["name"]: a for a in grid["axes"]}
+    apos = {a: next(p for p, d in axd[a]["pos"] if d in adims) for a in axn}
+    keys = [[a] for a in axn] + [list(c) for c in itertools.combinations(axn, 2)]
+    reg, n = [], 0
+    for key in keys:
+        if rng.random() < 0.55:
+            n += 1
+            key = list(key)
+            rng.shuffle(key)
+            pos = [apos[a] if rng.random() < 0.85 else rng.choice([p for p, _ in axd[a]["pos"]]) for a in key]
+            reg.append(metric_entry(rng, grid, key, pos, f"m{n}"))
+    rng.shuffle(reg)
+    return reg
+
+
 def gen_getmetric(rng, cid):
     while True:
         structured = rng.random() < 0.25
@@ -108,8 +128,23 @@ def gen_getmetric(rng, cid):
         if size > 40:
             continue
         if structured:
-            reg = partition_registry(rng, grid, adims)
-        return {"id": cid, "ev": "GetMetric", "grid": grid, "reg": reg, "adims": adims, "ashape": ashape, "axes": req}
+            reg = partition_registry(rng, grid, adims) if rng.random() < 0.4 else subset_registry(rng, grid, adims)
+            if not reg:
+                continue
+        case = {"id": cid, "ev": "GetMetric", "grid": grid, "reg": reg, "adims": adims, "ashape": ashape, "axes": req}
+        if rng.random() < 0.35:
+            # earlier lookups on the same Grid, for arrays at other positions of the same axes: what get_metric
+            # answers depends on the registry and on the array, not on what was looked up before
+            before = []
+            for _ in range(rng.randint(1, 2)):
+                bd, bs = [], []
+                for a in have:
+                    p_, d_ = rng.choice(axd[a]["pos"])
+                    bd.append(d_)
+                    bs.append(plen(p_, axd[a]["n"]))
+                before.append({"adims": bd, "ashape": bs})
+            case["before"] = before
+        return case
 
 
 def simple_registry(rng, grid, S, positions_list, distract=True, split=False):
@@ -197,6 +232,13 @@ def execute(case):
         grid, ds = model.make_grid(case["grid"], ds=ds, metrics=metrics)
         ev = case["ev"]
         if ev == "GetMetric":
+            for b in case.get("before", []):
+                try:
+                    with warnings.catch_warnings():
+                        warnings.simplefilter("ignore")
+                        grid.get_metric(xr.DataArray(np.zeros(b["ashape"]), dims=[nm(d) for d in b["adims"]]), [nm(a) for a in case["axes"]])
+                except Exception:
+                    pass
             arr = xr.DataArray(np.zeros(case["ashape"]), dims=[nm(d) for d in case["adims"]])
             with warnings.catch_warnings(record=True) as w:
                 warnings.simplefilter("always")
